@@ -104,7 +104,15 @@ func (s *BlockchainRpcTxWatcher) StartWatchingTxs() error {
 			case <-s.ctx.Done():
 				return nil
 			case nb := <-s.newBlockChan:
+				// The list is changed by AddWaitForConfirmationTx and by the
+				// observation loops, so read it under the lock.
+				s.Lock()
+				observers := make([]observerInfo, 0, len(s.observerLoopList))
 				for _, obs := range s.observerLoopList {
+					observers = append(observers, obs)
+				}
+				s.Unlock()
+				for _, obs := range observers {
 					go func(height uint32) { obs.blockChan <- height }(uint32(nb))
 				}
 				// Todo: HandleCsvTx could also need a refresh.
